@@ -2,7 +2,7 @@
    ONLY statements, each closed by [exact] of a lemma proved in proofs/, followed by
    Print Assumptions. *)
 From DF Require Import Prelude Constants_gen Region Mesh Subregions
-  C01_axis C14_setter C14_lattice C14_axis C14_findings.
+  C01_axis C14_setter C14_lattice C14_axis C14_sel C14_findings.
 Open Scope Q_scope.
 
 (* ---------- the setter ---------- *)
@@ -126,3 +126,42 @@ Theorem C14_partial_inv_preserved_axis : forall (lo hi : Q) (k : Z), lo < hi -> 
          (Qmin (a * slo + b) (a * shi + b)) (Qmax (a * slo + b) (a * shi + b)).
 Proof. exact affine_inv. Qed.
 Print Assumptions C14_partial_inv_preserved_axis.
+
+(* ---------- range selection (one axis) ---------- *)
+(* with the bounds Mesh.sel computes (centres of the first / last selected cell -/+ half a cell) a
+   subregion of cells j1..j2-1 is kept iff it shares a cell with the selected cells i1..i2 *)
+Theorem C14_partial_sel_exact_axis : forall (lo hi : Q) (k : Z), lo < hi -> (0 < k)%Z ->
+  forall (slo shi : Q) (j1 j2 : Z), (0 <= j1 /\ j1 < j2 /\ j2 <= k)%Z ->
+  slo == lo + inject_Z j1 * ((hi - lo) / inject_Z k) ->
+  shi == lo + inject_Z j2 * ((hi - lo) / inject_Z k) ->
+  forall i1 i2 : Z, (0 <= i1 /\ i1 <= i2 /\ i2 < k)%Z ->
+  keeps lo hi k slo shi i1 i2 = true <-> (Z.max j1 i1 < Z.min j2 (i2 + 1))%Z.
+Proof. exact sel_keeps_iff. Qed.
+Print Assumptions C14_partial_sel_exact_axis.
+
+(* a range ending exactly on a face of the subregion does not keep a sliver of it *)
+Theorem C14_sel_face_dropped : forall (lo hi : Q) (k : Z), lo < hi -> (0 < k)%Z ->
+  forall (slo shi : Q) (j1 j2 : Z), (0 <= j1 /\ j1 < j2 /\ j2 <= k)%Z ->
+  slo == lo + inject_Z j1 * ((hi - lo) / inject_Z k) ->
+  shi == lo + inject_Z j2 * ((hi - lo) / inject_Z k) ->
+  forall i1 i2 : Z, (0 <= i1 /\ i1 <= i2 /\ i2 < k)%Z ->
+  j2 = i1 \/ j1 = (i2 + 1)%Z -> keeps lo hi k slo shi i1 i2 = false.
+Proof. exact sel_face_dropped. Qed.
+Print Assumptions C14_sel_face_dropped.
+
+(* what is kept is clipped to whole cells of the selected mesh (same cell size, i2+1-i1 cells) *)
+Theorem C14_partial_sel_clip_axis : forall (lo hi : Q) (k : Z), lo < hi -> (0 < k)%Z ->
+  forall (slo shi : Q) (j1 j2 : Z), (0 <= j1 /\ j1 < j2 /\ j2 <= k)%Z ->
+  slo == lo + inject_Z j1 * ((hi - lo) / inject_Z k) ->
+  shi == lo + inject_Z j2 * ((hi - lo) / inject_Z k) ->
+  forall i1 i2 : Z, (0 <= i1 /\ i1 <= i2 /\ i2 < k)%Z ->
+  keeps lo hi k slo shi i1 i2 = true ->
+  let c := (hi - lo) / inject_Z k in
+  let min_val := lo + (inject_Z i1 + (1 # 2)) * c - (1 # 2) * c in
+  let max_val := lo + (inject_Z i2 + (1 # 2)) * c + (1 # 2) * c in
+  ax_inv min_val max_val (i2 + 1 - i1) (Qmax min_val slo) (Qmin max_val shi).
+Proof. exact sel_clip_inv. Qed.
+Print Assumptions C14_partial_sel_clip_axis.
+
+Example C14_sel_nonvacuous : keeps 0 4 4 1 3 2 3 = true /\ keeps 0 4 4 1 3 3 3 = false.
+Proof. split; vm_compute; reflexivity. Qed.
